@@ -21,8 +21,24 @@ func init() {
 
 // mustModNil: every path through g passes an event matching m, ignoring edges on which an optional
 // manager pointer is known to be nil (nothing to release there).
-func (p *P) mustModNil(g *ssa.Function, m M) bool {
-	res := p.mustPass(g, []Point{{g.Blocks[0], -1}}, func(in ssa.Instruction) bool { return p.evMust(in, m, 1) },
+func (p *P) mustModNil(g *ssa.Function, m M) bool { return p.mustModNilD(g, m, 3) }
+
+func (p *P) mustModNilD(g *ssa.Function, m M, depth int) bool {
+	if g == nil || g.Blocks == nil || depth < 0 {
+		return false
+	}
+	res := p.mustPass(g, []Point{{g.Blocks[0], -1}}, func(in ssa.Instruction) bool {
+		if m.F(in) {
+			return true
+		}
+		if _, isGo := in.(*ssa.Go); isGo {
+			return false
+		}
+		if h := p.localCallee(in); h != nil && h != g {
+			return p.mustModNilD(h, m, depth-1)
+		}
+		return false
+	},
 		func(b *ssa.BasicBlock, i int) bool {
 			ifi := blockIf(b)
 			if ifi == nil {
@@ -161,7 +177,7 @@ func c12Resources(p *P, r *R) {
 			}
 		}
 		ok, res := p.findBadPath(ns, []Point{pointOf(ac)}, pathOpts{
-			Discharge: func(in ssa.Instruction) bool { return p.evMust(in, fileClose, 1) },
+			Discharge: func(in ssa.Instruction) bool { return p.evMust(in, fileClose, inlineDepth) },
 			Bad: func(in ssa.Instruction) bool {
 				ret, isRet := in.(*ssa.Return)
 				return isRet && errorReturn(in) && isErrorExit(ret)
